@@ -533,6 +533,50 @@ func runC15(r *ev.Recorder) {
 			}
 		}
 	})
+	// comments at the end of items that are clones of one base statement (1..9 tokens, so with and
+	// without spare capacity), and comments appended to an item after it was added to its Block
+	for n := 1; n <= 9; n++ {
+		base := jen.Id("b0")
+		for i := 1; i < n; i++ {
+			base.Dot(fmt.Sprintf("b%d", i))
+		}
+		a, b := base.Clone().Call().Comment("first clone"), base.Clone().Call().Comment("second clone")
+		f := jen.NewFile("p")
+		f.Func().Id("fn").Params().Block(a, b)
+		o := jh.RenderFile(f)
+		r.Eval(1)
+		r.Distinct(fmt.Sprintf("comments-on-clones-%d", n))
+		if !o.OK() || strings.Count(o.Out, "// first clone") != 1 || strings.Count(o.Out, "// second clone") != 1 {
+			r.Violate(ev.Violation{Signature: "c15:comments-on-clones", What: fmt.Sprintf("two clones of a %d-token statement, each with its own trailing comment, render %q", 2*n-1, jh.Short(o.String(), 300)), Case: ev.JSON(c15Case{Kind: "program", Desc: "comments on clones"})})
+		}
+	}
+	{
+		var sts []*jen.Statement
+		f := jen.NewFile("p")
+		f.Func().Id("fn").Params().BlockFunc(func(g *jen.Group) {
+			for i := 0; i < 3; i++ {
+				st := jen.Id(fmt.Sprintf("call%d", i)).Call()
+				g.Add(st)
+				sts = append(sts, st)
+			}
+		})
+		top := jen.Var().Id("x").Op("=").Lit(1)
+		f.Add(top)
+		for i, st := range sts {
+			st.Comment(fmt.Sprintf("annotated later %d", i))
+		}
+		top.Comment("annotated later top")
+		o := jh.RenderFile(f)
+		r.Eval(1)
+		r.Distinct("comments-after-add")
+		ok := o.OK() && strings.Contains(o.Out, "// annotated later top")
+		for i := range sts {
+			ok = ok && strings.Contains(o.Out, fmt.Sprintf("call%d() // annotated later %d", i, i))
+		}
+		if !ok {
+			r.Violate(ev.Violation{Signature: "c15:comments-appended-after-add", What: fmt.Sprintf("items added to a Block / the File first and commented afterwards render %q", jh.Short(o.String(), 400)), Case: ev.JSON(c15Case{Kind: "program", Desc: "comments after add"})})
+		}
+	}
 	// long lines and foreign line endings in file-level comments: three lines, the middle one of
 	// length 10, 2^16-1, 2^16, 70000 (sizes at which line-oriented readers give up), ending in \n or \r\n
 	for _, n := range []int{10, 4095, 4096, 65535, 65536, 70000, 1 << 20} {
